@@ -1,0 +1,60 @@
+//go:build verif
+
+package influxql
+
+// Instrumentation and accessors used only by the verification harness in
+// /verif. Built only with `-tags verif`; verif_nohooks.go supplies empty
+// stubs otherwise.
+
+var (
+	verifMaxTokPushback  int
+	verifMaxRunePushback int
+)
+
+// verifNoteScan records the token pushback depth seen at the start of a scan.
+func verifNoteScan(n int) {
+	if n > verifMaxTokPushback {
+		verifMaxTokPushback = n
+	}
+}
+
+// verifNoteRead records the rune pushback depth seen at the start of a read.
+func verifNoteRead(n int) {
+	if n > verifMaxRunePushback {
+		verifMaxRunePushback = n
+	}
+}
+
+// VerifResetPushback clears the recorded maxima (not goroutine-safe; the
+// harness calls it from a single goroutine).
+func VerifResetPushback() { verifMaxTokPushback, verifMaxRunePushback = 0, 0 }
+
+// VerifMaxPushback reports the largest token and rune pushback depths seen
+// at the start of any scan or read since the last reset.
+func VerifMaxPushback() (tokens, runes int) { return verifMaxTokPushback, verifMaxRunePushback }
+
+// VerifPending reports how many runes are currently pushed back in s.
+func (s *Scanner) VerifPending() int { return s.r.n }
+
+// VerifIsOperator exposes Token.isOperator.
+func VerifIsOperator(t Token) bool { return t.isOperator() }
+
+// VerifTokenCount is the number of values in the Token enumeration
+// (including the unexported range markers).
+func VerifTokenCount() int { return int(keywordEnd) + 1 }
+
+// VerifIsWhitespace etc. expose the rune classes of the scanner.
+func VerifIsWhitespace(ch rune) bool     { return isWhitespace(ch) }
+func VerifIsLetter(ch rune) bool         { return isLetter(ch) }
+func VerifIsDigit(ch rune) bool          { return isDigit(ch) }
+func VerifIsIdentChar(ch rune) bool      { return isIdentChar(ch) }
+func VerifIsIdentFirstChar(ch rune) bool { return isIdentFirstChar(ch) }
+
+// VerifMatchExactRegex exposes matchExactRegex.
+func VerifMatchExactRegex(v string) ([]string, bool) { return matchExactRegex(v) }
+
+// VerifScanner exposes the parser's underlying scanner.
+func (p *Parser) VerifScanner() *Scanner { return p.s.s }
+
+// VerifTokenPending reports how many tokens are currently pushed back.
+func (p *Parser) VerifTokenPending() int { return p.s.n }
